@@ -226,7 +226,7 @@ def sympy_base(F, elem, text, form, mp):
                 expr, used = r, "crootof"
                 break
     # numeric identity check (harness sanity, not a verdict about Polar)
-    z = sympy.N(expr, 40)
+    z = sympy.N(expr, max(40, mp.dps - 20))
     re_, im_ = z.as_real_imag()
     zz = mp.mpc(mp.mpf(str(re_)), mp.mpf(str(im_)))
     t = F.embed(elem, mp)
@@ -288,9 +288,12 @@ def box_solutions(F, elems, B, mp):
 def run_algebraic(case, tier):
     import mpmath
     mp = mpmath.mp.clone()
-    mp.dps = 60
     F = A.FIELDS[case["field"]]
     elems = [F.dec(js) for js in case["elems"]]
+    # working precision follows the size of the coefficients: a large power of a unit such as (1 - sqrt2)**200 is a tiny number
+    # written as the difference of two 150-digit terms
+    mag = max([len(str(abs(c.numerator))) + len(str(c.denominator)) for x in elems for c in x.values()] or [1])
+    mp.dps = 60 + 2 * mag
     k = len(elems)
     res = {"fingerprint": "alg:" + case["field"] + ":" + "|".join(case["bases"]) + ":" + case.get("form", ""),
            "features": list(case.get("features", [])), "events": {}, "violations": [], "comparisons": 0, "refusals": []}
@@ -375,6 +378,13 @@ def run_algebraic(case, tier):
         res["comparisons"] += 1
         if not A.in_span(ech, g):
             missing.append(g)
+    # relations stated with the (fixed) case: confirmed by exact arithmetic here, then required like the box solutions
+    for g in case.get("known_relations", []):
+        if not F.is_one(F.product(elems, g)):
+            raise AssertionError(f"stated relation {g} does not hold exactly")
+        res["comparisons"] += 1
+        if not A.in_span(ech, g):
+            missing.append(g)
     if missing:
         viol.append({"kind": "incomplete", "vector": missing[0], "key": None,
                      "detail": f"bases {names}: relation {missing[0]} (product exactly 1) is not an integer combination of the returned basis {basis}; "
@@ -389,9 +399,9 @@ def run_algebraic(case, tier):
     if undecided and not viol:
         res.update(verdict="inconclusive", reason="oracle-limit-large-exponents")
         return res
-    res["nontrivial"] = bool(truth) or bool(basis)
+    res["nontrivial"] = bool(truth) or bool(basis) or bool(case.get("known_relations"))
     res["verdict"] = "violated" if viol else "held"
-    res["extra"] = {"algebraic_lists": 1, "box_vectors_tested": tested, "box_exact_products": exact, "box_solutions": len(sols),
+    res["extra"] = {"algebraic_lists": 1, "stated_relations": len(case.get("known_relations", [])), "box_vectors_tested": tested, "box_exact_products": exact, "box_solutions": len(sols),
                     "full_lattice_oracle" if L_atoms is not None else "box_only_oracle": 1}
     res["sample"] = {"bases": names, "polar_basis": basis, "oracle": "atoms+box" if L_atoms is not None else "box",
                      "oracle_lattice_basis": truth, "box": B, "box_solutions": len(sols)}
